@@ -308,6 +308,41 @@ def run_hist_property(rep, tier, seed, wd, pid, kinds, opts, sizes, judges=(), e
     return all_h
 
 
+def twin_histories(kind):
+    """a second rules service opened on the storage path of the running instance (overlapping restart, second daemon):
+    it must be refused; if it opens, the instance signs one message and the twin is asked to approve a conflicting one"""
+    def mk(keys, rng):
+        accts, perms, admins = hist.std_config(keys, nacct=4, locked=False)
+        cfg = hist.config_lines(accts, perms, admins)
+        n0 = "n:" + hx(accts[0].path)
+        k1 = "k:" + accts[1].pk.hex()
+        H = []
+        if kind == "prop":
+            pd = lambda slot, tag: prop_line("client1", n0, slot, tag).split(" ")[4]
+            ops = [prop_line("client1", n0, 100, 0), "twinprop %s %s %s %s" % (hx("client1"), n0, pd(200, 0), pd(200, 1)),
+                   prop_line("client1", n0, 200, 1), "twinprop %s %s %s %s" % (hx("client1"), k1, pd(7, 0), pd(7, 1)), "export"]
+        else:
+            ad = lambda s_, t_, tag: att_line("client1", n0, s_, t_, tag).split(" ")[4]
+            ops = [att_line("client1", n0, 1, 2, 0), "twinatt %s %s %s %s" % (hx("client1"), n0, ad(2, 3, 0), ad(2, 3, 1)),
+                   att_line("client1", n0, 2, 3, 1), "twinatt %s %s %s %s" % (hx("client1"), k1, ad(5, 6, 0), ad(5, 6, 1)), "export"]
+        H.append({"cfg": cfg, "ops": ops, "accts": accts, "opts": {}})
+        return H
+    return mk
+
+
+def judge_twin(pid):
+    def fn(rep, dh, wd, all_h):
+        for h in all_h:
+            for i, op in enumerate(h["ops"]):
+                if op.startswith("twin") and i < len(h["impl"]) and h["impl"][i].startswith("opened"):
+                    rep.violation("second-instance-on-live-store", "a second rules service opened the storage path of a running instance (no directory lock): "
+                                  "each has its own view of what was signed (%s)" % h["impl"][i][:80],
+                                  {"config": h["cfg"], "ops": h["ops"][:i + 1], "impl": h["impl"][i][:200]})
+                    return True
+        return False
+    return fn
+
+
 def c01(rep, tier, seed, wd, replay):
     rep.cov["rule"] = ("histories of single/batch attestation requests (by name/key, duplicate keys, boundary epochs incl. >=2^63, "
                        "restarts, injected store faults) over 5-6 accounts; non-trivial = releases >=2 signatures for one key or "
@@ -324,8 +359,8 @@ def c01(rep, tier, seed, wd, replay):
         rel = hist.released(h["ops"], h["impl"], h["accts"])
         ks = [r[1] for r in rel if r[0] == "att"]
         return len(ks) != len(set(ks)) or any("D" in hist.states_of(l) for l in h["impl"] if l)
-    run_hist_property(rep, tier, seed, wd, "C01", ("att", "atts", "atts0", "export", "restart"), opts, sizes,
-                      judges=[judge_slash("C01")], nontrivial=nontriv)
+    run_hist_property(rep, tier, seed, wd, "C01", ("att", "atts", "atts0", "export", "restart", "twinatt"), opts, sizes,
+                      judges=[judge_slash("C01"), judge_twin("C01")], nontrivial=nontriv, extra_hist=twin_histories("att"))
     if REPLAY is None or "scenario" in REPLAY:
         # histories with concurrently issued requests: keys with high watermarks are re-asked for signed targets while
         # other keys advance (judged order-free: no two released attestations of one key are slashable)
@@ -347,8 +382,8 @@ def c02(rep, tier, seed, wd, replay):
         ks = [r[1] for r in rel if r[0] == "prop"]
         return len(ks) != len(set(ks)) or any(op.startswith("prop") and "D" in hist.states_of(l)
                                               for op, l in zip(h["ops"], h["impl"]))
-    run_hist_property(rep, tier, seed, wd, "C02", ("prop", "export", "restart"), opts, sizes,
-                      judges=[judge_slash("C02")], nontrivial=nontriv)
+    run_hist_property(rep, tier, seed, wd, "C02", ("prop", "export", "restart", "twinprop"), opts, sizes,
+                      judges=[judge_slash("C02"), judge_twin("C02")], nontrivial=nontriv, extra_hist=twin_histories("prop"))
     if REPLAY is None or "scenario" in REPLAY:
         # histories with concurrently issued requests: keys with high watermarks are re-asked for signed slots while
         # other keys advance (judged order-free: no two released proposals of one key share a slot)
@@ -636,14 +671,19 @@ def c06(rep, tier, seed, wd, replay):
     def extra(keys, rng):
         # the same through the real gRPC API: the handlers must copy a signature only under SUCCEEDED
         return c06_faults(keys, rng) + grpc_histories(rng, keys, *tier_sizes(tier, (10, 30), (100, 60)))
-    run_hist_property(rep, tier, seed, wd, "C06", SIGN_KINDS + ("export",), opts, sizes, judges=[judge],
+    # a refused permission check is a failed step like any other: whatever carries a signature must be granted by the
+    # specification to that client for the account whose key signed
+    run_hist_property(rep, tier, seed, wd, "C06", SIGN_KINDS + ("export",), opts, sizes,
+                      judges=[judge, permission_judge("signed-despite-refused-permission", "a signature was returned although the permission check refuses the request")],
                       nontrivial=nontriv, corpus=False, extra_hist=extra)
     rep.cov["exhaustive"] = False
 
 
 THEOREMS.update({
-    "C01": ("Dirk.Props.C01", ["Dirk.C01_monotone", "Dirk.C01", "Dirk.C01_legacy_counterexample", "Dirk.C01_kernel_is_source"]),
-    "C02": ("Dirk.Props.C02", ["Dirk.C02_increasing", "Dirk.C02", "Dirk.C02_legacy_counterexample", "Dirk.C02_kernel_is_source"]),
+    "C01": ("Dirk.Props.C01", ["Dirk.C01_monotone", "Dirk.C01", "Dirk.C01_index", "Dirk.C01_with_imports", "Dirk.C01_lowering_import_counterexample",
+                               "Dirk.C01_legacy_counterexample", "Dirk.C01_kernel_is_source"]),
+    "C02": ("Dirk.Props.C02", ["Dirk.C02_increasing", "Dirk.C02", "Dirk.C02_with_imports", "Dirk.C02_lowering_import_counterexample",
+                               "Dirk.C02_legacy_counterexample", "Dirk.C02_kernel_is_source"]),
 })
 
 def run_perm_configs(rep, dh, wd, configs, label="perms"):
@@ -744,6 +784,49 @@ def run_perm_configs(rep, dh, wd, configs, label="perms"):
     return found
 
 
+PERM_OPNAME = {"att": "Sign beacon attestation", "prop": "Sign beacon proposal", "sign": "Sign"}
+
+
+def _judge_released(rep, dh, wd, all_h, vkey, vtext):
+    """every signature the service released must be one the SPECIFICATION grants to that client for the account the
+    request resolved to (the account whose key signed), whatever name the request carried"""
+    from common import run_model
+    jl, jm = [], []
+    for hi, h in enumerate(all_h):
+        jl += ["reset"] + [l for l in h["cfg"] if l.split()[0] in ("perm", "permclient")]
+        jm.append(None)
+        byk = {a.pk: a for a in h["accts"]}
+        for (k, key, data, sig, i, j, st) in hist.released(h["ops"], h["impl"], h["accts"]):
+            if key is None or key not in byk:
+                continue
+            cl = h["ops"][i].split()[1]
+            jl.append("jcheck %s %s %s 1" % (cl, hx(byk[key].path), hx(PERM_OPNAME[k])))
+            jm.append((hi, i, j))
+        # account-manager requests that were GRANTED: the specification must grant that operation on that account
+        for i, op in enumerate(h["ops"]):
+            f = op.split()
+            if f[0] in ("lockacct", "unlockacct") and i < len(h["impl"]) and h["impl"][i].strip() == "S":
+                jl.append("jcheck %s %s %s 1" % (f[1], f[2], hx("Lock account" if f[0] == "lockacct" else "Unlock account")))
+                jm.append((hi, i, 0))
+    out = run_model(jl)
+    outs = [o for o in out if o.strip()]
+    res = [o.strip() for o in outs]
+    # reset lines print nothing; align by counting only judged lines
+    judged = [m for m in jm if m is not None]
+    rep.cov["released_signatures_judged_against_permissions"] = len(judged)
+    for m, o in zip(judged, res):
+        if o != "ok":
+            hi, i, j = m
+            rep.violation(vkey, vtext + " (%s)" % o,
+                          {"config": all_h[hi]["cfg"], "ops": all_h[hi]["ops"][:i + 1], "position": j})
+            return True
+    return False
+
+
+def permission_judge(vkey, vtext):
+    return lambda rep, dh, wd, all_h: _judge_released(rep, dh, wd, all_h, vkey, vtext)
+
+
 def acctmgr_histories(keys, rng, n=6, n_ops=18):
     """histories in which accounts are locked and unlocked through the account manager between signing requests:
     Lock/Unlock are granted by the permission on the account ('Lock account' / 'Unlock account'); an explicit Unlock must
@@ -813,40 +896,39 @@ def c07(rep, tier, seed, wd, replay):
     opts = {"faults": False, "huge": False}
     OPNAME = {"att": "Sign beacon attestation", "prop": "Sign beacon proposal", "sign": "Sign"}
 
-    def judge_released(rep, dh, wd, all_h):
-        """every signature the service released must be one the SPECIFICATION grants to that client for the account the
-        request resolved to (the account whose key signed), whatever name the request carried"""
-        from common import run_model
-        jl, jm = [], []
-        for hi, h in enumerate(all_h):
-            jl += ["reset"] + [l for l in h["cfg"] if l.split()[0] in ("perm", "permclient")]
+    judge_released = permission_judge("signature-released-without-permission", "a signature was released for an account the client's permissions do not grant")
+    # listings are served operations too ('Access account'): nothing may be listed that the specification does not grant
+    # (several listings per scenario: the lister walks Go maps, whose order changes from call to call)
+    import listing
+    from common import run_impl, run_model
+    lkeys = hist.interop_keys(dh)
+    lscen = [listing.gen_scenario(rng.fork(), lkeys) for _ in range(tier_sizes(tier, 40, 400))]
+    ll = []
+    for cfg_, ops_, _ in lscen:
+        ll += ["reset"] + cfg_ + [o for o in ops_ if o.startswith("list ") for _ in range(3)]
+    limpl, lcrashed, lerr = run_impl(dh, wd, ll)
+    if lcrashed:
+        rep.broken.append(("implementation-crash:list", lerr[-1500:], False))
+    else:
+        jl, jm, pos = [], [], 0
+        for cfg_, ops_, _ in lscen:
+            lops = [o for o in ops_ if o.startswith("list ") for _ in range(3)]
+            seg = limpl[pos + 1:pos + 1 + len(lops)]
+            pos += 1 + len(lops)
+            jl += ["reset"] + [l for l in cfg_ if l.split()[0] in ("acct", "perm", "permclient", "wallet")] + ["begin"]
             jm.append(None)
-            byk = {a.pk: a for a in h["accts"]}
-            for (k, key, data, sig, i, j, st) in hist.released(h["ops"], h["impl"], h["accts"]):
-                if key is None or key not in byk:
-                    continue
-                cl = h["ops"][i].split()[1]
-                jl.append("jcheck %s %s %s 1" % (cl, hx(byk[key].path), hx(OPNAME[k])))
-                jm.append((hi, i, j))
-            # account-manager requests that were GRANTED: the specification must grant that operation on that account
-            for i, op in enumerate(h["ops"]):
-                f = op.split()
-                if f[0] in ("lockacct", "unlockacct") and i < len(h["impl"]) and h["impl"][i].strip() == "S":
-                    jl.append("jcheck %s %s %s 1" % (f[1], f[2], hx("Lock account" if f[0] == "lockacct" else "Unlock account")))
-                    jm.append((hi, i, 0))
-        out = run_model(jl)
-        outs = [o for o in out if o.strip()]
-        res = [o.strip() for o in outs]
-        # reset lines print nothing; align by counting only judged lines
-        judged = [m for m in jm if m is not None]
-        rep.cov["released_signatures_judged_against_permissions"] = len(judged)
-        for m, o in zip(judged, res):
-            if o != "ok":
-                hi, i, j = m
-                rep.violation("signature-released-without-permission", "a signature was released for an account the client's permissions do not grant (%s)" % o,
-                              {"config": all_h[hi]["cfg"], "ops": all_h[hi]["ops"][:i + 1], "position": j})
-                return True
-        return False
+            for o, io in zip(lops, seg):
+                if io.startswith("S"):
+                    f = o.split()
+                    jl.append("jlist %s %s %s" % (f[1], f[2], io.split()[1] if len(io.split()) > 1 else "-"))
+                    jm.append((cfg_, o, io))
+        jo = run_model(jl)
+        rep.cov["listings_judged_against_permissions"] = sum(1 for m in jm if m is not None)
+        for m, o in zip(jm, jo):
+            if m is not None and o.startswith("LISTED-NOT-ALLOWED"):
+                rep.violation("listed-without-permission", "a listing shows an account the client's permissions do not grant access to",
+                              {"config": m[0], "ops": [m[1]] * 3, "impl": m[2]})
+                break
     run_hist_property(rep, tier, seed, wd, "C07", SIGN_KINDS + ("export", "lockacct", "unlockacct"), opts, sizes, corpus=False, judges=[judge_released],
                       extra_hist=lambda keys, rng: acctmgr_histories(keys, rng, *tier_sizes(tier, (6, 18), (60, 40))))
 
@@ -1088,6 +1170,13 @@ def c08(rep, tier, seed, wd, replay):
         epoch += 4
         ms = ";".join("%s,%s,%s" % (adr(a), hist.dom32(DOM_RANDAO, rng).hex(), bytes(rng.below(256) for _ in range(32)).hex()) for a in picks)
         ops.append("msign %s - - %s" % (hx("c"), ms))
+        # all entries addressed by NAME, in an order that is not the sorted one (and all by KEY): whatever reorders or
+        # regroups the names must keep entry i the answer to request i
+        if n >= 2 and n <= 65:
+            for form in ("n", "k"):
+                ents = ["%s,%s,%s" % (("n:" + hx(a.path)) if form == "n" else ("k:" + a.pk.hex()), hist.dom32(DOM_RANDAO, rng).hex(),
+                                      bytes(rng.below(256) for _ in range(32)).hex()) for a in reversed(sorted(picks, key=lambda a_: a_.path))]
+                ops.append("msign %s - - %s" % (hx("c"), ";".join(ents)))
         # the same kind of batch with ONE entry that fails before the rules are consulted (unknown account / account that
         # cannot be unlocked / unknown key) at the front, in the middle or at the end: whatever the batch does with the
         # other entries, an entry's signature is by the account THAT entry addresses over THAT entry's data
@@ -1114,6 +1203,10 @@ def c08(rep, tier, seed, wd, replay):
     # (splitting, copying results back) must keep entry i the answer to request i
     for p in ([4] if not big else [2, 16]):
         runs.append(({"cfg": ["viagrpc"] + cfg, "ops": ops_big + ops[:12], "accts": accts + [locked], "opts": {}, "gomaxprocs": p, "viagrpc": True}, "ssz-grpc"))
+    # the same with every service logging at trace level (to a discarding writer): whatever code runs only when a log entry is
+    # enabled must not touch what is signed — directly and through the gRPC API
+    runs.append(({"cfg": ["tracelog"] + cfg, "ops": ops, "accts": accts + [locked], "opts": {}, "gomaxprocs": 2}, "ssz-trace"))
+    runs.append(({"cfg": ["tracelog", "viagrpc"] + cfg, "ops": ops, "accts": accts + [locked], "opts": {}, "gomaxprocs": 3, "viagrpc": True}, "ssz-grpc-trace"))
     from concurrent.futures import ThreadPoolExecutor as _TPE
 
     def _run(hr):
@@ -2095,6 +2188,8 @@ def grpc_histories(rng, keys, n_hist, n_ops, faults=True):
     r = rng.fork()
     for h in hs:
         h["cfg"] = ["viagrpc"] + h["cfg"]
+        if r.chance(0.5):
+            h["cfg"] = ["tracelog"] + h["cfg"]      # every service logs at trace level (discarded)
         h["ops"] = [o for o in h["ops"] if o != "restart"]
         # the request's source address is the REMOTE end of the connection: generic signing requests are sent from
         # different loopback source addresses (the server end is always 127.0.0.1)
@@ -2859,7 +2954,7 @@ THEOREMS.update({
                                "Dirk.facts_tls_creds", "Dirk.facts_tls_fields", "Dirk.facts_services", "Dirk.facts_interceptor", "Dirk.facts_clientName"]),
     "C18": ("Dirk.Props.C18Whole", ["Dirk.C18_sound", "Dirk.C18_complete", "Dirk.C18_fields", "Dirk.C18_dynamic",
                                     "Dirk.C18_complete_whole_name", "Dirk.C18_anchor_only_widens"]),
-    "C14": ("Dirk.Props.C14", ["Dirk.C14", "Dirk.C14_proposals", "Dirk.C14_threshold_from_generation"]),
+    "C14": ("Dirk.Props.C14", ["Dirk.C14", "Dirk.C14_proposals", "Dirk.C14_with_imports", "Dirk.C14_threshold_from_generation"]),
     "C13": ("Dirk.Props.C13", ["Dirk.Dkg.C13_reject", "Dirk.Dkg.C13_no_account", "Dirk.Dkg.C13_legacy_counterexample", "Dirk.Dkg.C13_kernel_is_source"]),
     "C16": ("Dirk.Props.C16", ["Dirk.Dkg.C16_refuse_non_peer", "Dirk.Dkg.C16_share_owner", "Dirk.Dkg.C16_projection", "Dirk.Dkg.C16_kernel_is_source"]),
     "C17": ("Dirk.Props.C17", ["Dirk.Dkg.C17_prepare_twice", "Dirk.Dkg.C17_requires_active", "Dirk.Dkg.C17_gone_after",
@@ -2877,7 +2972,7 @@ THEOREMS.update({
                                "Dirk.C09_live_prop_rule", "Dirk.C09_live_att", "Dirk.C09_live_prop", "Dirk.C09_kernel_is_source"]),
     "C11": ("Dirk.Props.C11", ["Dirk.C11_codec_roundtrip", "Dirk.C11_restart", "Dirk.C11_import_export_same_decisions",
                                "Dirk.C11_export_exact", "Dirk.C11_last_is_highest"]),
-    "C10": ("Dirk.Props.C10", ["Dirk.C10_never_lowers", "Dirk.C10_protects", "Dirk.C10_composes", "Dirk.C10_refuses_after_prop",
+    "C10": ("Dirk.Props.C10", ["Dirk.C10_never_lowers", "Dirk.C10_protects", "Dirk.C10_composes", "Dirk.C10_range_any", "Dirk.C10_import_command_keeps_invariants", "Dirk.C10_refuses_after_prop",
                                "Dirk.C10_refuses_after_att", "Dirk.C10_bad_metadata", "Dirk.C10_parse_error_no_change",
                                "Dirk.C10_legacy_counterexample"]),
     "C07": ("Dirk.Props.C07Refine", ["Dirk.C07_kernel_is_source", "Dirk.C07_check_refines_spec", "Dirk.C07_served_has_bearing", "Dirk.C07_scan_eq_spec", "Dirk.C07_default_deny", "Dirk.C07_unknown_client", "Dirk.C07_no_identity",
